@@ -2,7 +2,9 @@
 
 specs/codec/Graph6.tla       graph6 / digraph6 as arithmetic on byte sequences (Enc, Dec, Valid, Class)
 specs/codec/MatBinary.tla    the 40-byte header of mat's binary form and the decision table of the decoders
-specs/codec/RdfIso.tla       datasets as sets of quads, isomorphism by brute force over blank-node bijections
+specs/codec/RdfIso.tla       datasets as sets of quads (s, p, o, g), isomorphism by brute force over blank-node bijections
+                             (acting on subject, object and graph label), statement order for Deduplicate, plan of all
+                             statement orders and listings with repetitions
 specs/codec/DotAbstract.tla  abstract DOT structure over a quoting-hostile string pool (round trip = identity)
 specs/codec/NQuadsAbstract.tla  abstract N-Quads statement content over hostile literal texts (print then parse = identity)
 specs/codec/TokenCorrupt.tla  single-token corruptions of DOT / N-Quads documents (decoder totality only)
@@ -63,7 +65,20 @@ def run_mat(ctx, bins):
             ctx.replay(b, "codec-mat", cases, name="R2 replay mat binary %s [%s]" % (mode, bn))
 
 
-RDF_R1 = "OrbitIsDef DefIsOrbit Equivalence OrbitStabiliser ShardInvariant"
+RDF_R1 = "OrbitIsDef DefIsOrbit Equivalence OrbitStabiliser ShardInvariant SortTotal LabelsMatter"
+# term pools of RdfIso.tla: the triple family (default graph only, 3 blank labels, IRI + literal, 2 predicates: 40 statements),
+# quad family A (2 blank labels, 1 predicate, graph label in {none, 2 IRIs, the 2 blank labels}: 45 statements) and
+# quad family B (3 blank labels, graph label in {none, 2 IRIs, the 3 blank labels}: 96 statements)
+RDF_TRIPLES = dict(NB=3, NPRED=2, WITHLIT="TRUE", NIRILABELS=0, BLANKLABELS="FALSE")
+RDF_QUADS_A = dict(NB=2, NPRED=1, WITHLIT="FALSE", NIRILABELS=2, BLANKLABELS="TRUE")
+RDF_QUADS_B = dict(NB=3, NPRED=1, WITHLIT="FALSE", NIRILABELS=2, BLANKLABELS="TRUE")
+RDF_NAMINGS = ["b", "rev", "c14n", "prefix", "mixed"]
+
+
+def rdf_sub(pool, **kw):
+    d = dict(pool)
+    d.update(kw)
+    return d
 
 
 def run_rdf(ctx, bins):
@@ -71,13 +86,13 @@ def run_rdf(ctx, bins):
     spec, cfg = "codec/RdfIso.tla", "codec/RdfIso.cfg"
     # R1: Iso (orbit form) = the definition by bijections, is an equivalence, orbit-stabiliser, shard invariance
     if thorough:
-        ctx.tlc(spec, cfg, subst=dict(NB=3, MINQ=0, MAXQ=3, SHARD=0, NSHARDS=1, EMIT="FALSE", INVS=RDF_R1, SHARDFROM=0), workers=4,
+        ctx.tlc(spec, cfg, subst=rdf_sub(RDF_TRIPLES, MINQ=0, MAXQ=3, SHARD=0, NSHARDS=1, EMIT="FALSE", INVS=RDF_R1, SHARDFROM=0), workers=4,
                 name="R1 RdfIso: all datasets <= 3 quads, 3 blank labels")
     else:
-        ctx.tlc(spec, cfg, subst=dict(NB=3, MINQ=0, MAXQ=3, SHARD=ctx.seed % 6, NSHARDS=6, EMIT="FALSE", INVS=RDF_R1, SHARDFROM=0), workers=4,
+        ctx.tlc(spec, cfg, subst=rdf_sub(RDF_TRIPLES, MINQ=0, MAXQ=3, SHARD=ctx.seed % 6, NSHARDS=6, EMIT="FALSE", INVS=RDF_R1, SHARDFROM=0), workers=4,
                 name="R1 RdfIso: datasets <= 3 quads, 3 blank labels, class shard %d/6 (by seed)" % (ctx.seed % 6))
     if thorough:
-        ctx.tlc(spec, cfg, subst=dict(NB=3, MINQ=4, MAXQ=4, SHARD=0, NSHARDS=1, EMIT="FALSE", INVS=RDF_R1, SHARDFROM=0), workers=4,
+        ctx.tlc(spec, cfg, subst=rdf_sub(RDF_TRIPLES, MINQ=4, MAXQ=4, SHARD=0, NSHARDS=1, EMIT="FALSE", INVS=RDF_R1, SHARDFROM=0), workers=4,
                 name="R1 RdfIso: all datasets with 4 quads", timeout=1500)
     # R2: every dataset with its class key
     if thorough:
@@ -87,11 +102,44 @@ def run_rdf(ctx, bins):
         gens = [("all with <= 3 quads + 4 quads class shard %d/32 (by seed)" % (ctx.seed % 32),
                  dict(MINQ=1, MAXQ=4, SHARD=ctx.seed % 32, NSHARDS=32, SHARDFROM=4))]
     for name, sub in gens:
-        sub.update(NB=3, EMIT="TRUE", INVS="EmitCase")
+        sub = rdf_sub(RDF_TRIPLES, EMIT="TRUE", INVS="EmitCase", **sub)
         cases = ctx.gen(spec, cfg, subst=sub, name="R2 gen rdf datasets " + name)
         for bn, b in bins.items():
             ctx.replay(b, "codec-rdf", cases, ["namings=b,rev,c14n,prefix,mixed" if thorough else "namings=" + ["b,c14n", "rev,c14n", "b,prefix", "mixed,rev"][ctx.seed % 4]],
                        name="R2 replay rdf %s [%s]" % (name, bn))
+
+
+def run_rdf_quads(ctx, bins):
+    """Datasets with named graphs: statements (s, p, o, g), g in {no label, two IRIs, a blank node of the same pool}.
+    Every statement order (all permutations) for the canonical forms, every listing with one or two repetitions
+    for Deduplicate."""
+    thorough = ctx.tier == "thorough"
+    spec, cfg = "codec/RdfIso.tla", "codec/RdfIso.cfg"
+    # R1 on the quad pools
+    ctx.tlc(spec, cfg, subst=rdf_sub(RDF_QUADS_A, MINQ=0, MAXQ=3, SHARD=0, NSHARDS=1, EMIT="FALSE", INVS=RDF_R1, SHARDFROM=0), workers=4,
+            name="R1 RdfIso quads: all datasets <= 3 quads over 45 statements (2 blank labels, graph label none/2 IRIs/blank)")
+    if thorough:
+        # (DefIsOrbit compares each dataset with all 4 560 pairs of statements: measured 880 s unsharded on a loaded machine)
+        ctx.tlc(spec, cfg, subst=rdf_sub(RDF_QUADS_B, MINQ=0, MAXQ=2, SHARD=ctx.seed % 4, NSHARDS=4, EMIT="FALSE", INVS=RDF_R1, SHARDFROM=0), workers=4,
+                name="R1 RdfIso quads: datasets <= 2 quads over 96 statements (3 blank labels), class shard %d/4 (by seed)" % (ctx.seed % 4), timeout=1500)
+    # R2
+    if thorough:
+        plans = [("A: all with <= 3 quads", RDF_QUADS_A, dict(MINQ=1, MAXQ=3, SHARD=0, NSHARDS=1, SHARDFROM=0), RDF_NAMINGS[ctx.seed % 5:][:1] + ["c14n"])]
+        plans += [("A: 4 quads class shard %d/16 (by seed)" % ((ctx.seed + i) % 16), RDF_QUADS_A,
+                   dict(MINQ=4, MAXQ=4, SHARD=(ctx.seed + i) % 16, NSHARDS=16, SHARDFROM=0), [RDF_NAMINGS[(ctx.seed + i) % 5]]) for i in range(2)]
+        plans += [("B: all with <= 2 quads + 3 quads class shard %d/8 (by seed)" % (ctx.seed % 8), RDF_QUADS_B,
+                   dict(MINQ=1, MAXQ=3, SHARD=ctx.seed % 8, NSHARDS=8, SHARDFROM=3), [RDF_NAMINGS[(ctx.seed + 2) % 5], "rev"])]
+    else:
+        plans = [("A: all with <= 3 quads + 4 quads class shard %d/128 (by seed)" % (ctx.seed % 128), RDF_QUADS_A,
+                  dict(MINQ=1, MAXQ=4, SHARD=ctx.seed % 128, NSHARDS=128, SHARDFROM=4), [RDF_NAMINGS[ctx.seed % 5]]),
+                 ("B: all with <= 2 quads + 3 quads class shard %d/64 (by seed)" % (ctx.seed % 64), RDF_QUADS_B,
+                  dict(MINQ=1, MAXQ=3, SHARD=ctx.seed % 64, NSHARDS=64, SHARDFROM=3), [RDF_NAMINGS[(ctx.seed + 2) % 5]])]
+    for name, pool, sub, names in plans:
+        sub = rdf_sub(pool, EMIT="TRUE", INVS="EmitCase", **sub)
+        cases = ctx.gen(spec, cfg, subst=sub, name="R2 gen rdf quad datasets " + name)
+        for bn, b in bins.items():
+            ctx.replay(b, "codec-rdf", cases, ["namings=" + ",".join(dict.fromkeys(names)), "perms=all", "dedup=1"],
+                       name="R2 replay rdf quads %s, namings %s, all statement orders, Deduplicate [%s]" % (name, "+".join(dict.fromkeys(names)), bn))
 
 
 def run_dot(ctx, bins):
@@ -203,7 +251,7 @@ def run(ctx):
 
     # independent families side by side (the generators are single-threaded TLC runs)
     ctx.parallel([lambda: run_graph6(ctx, bins, (False,)), lambda: run_graph6(ctx, bins, (True,)),
-                  lambda: run_rdf(ctx, bins), small_families, lambda: run_prng(ctx, bins)], width=5)
+                  lambda: run_rdf(ctx, bins), lambda: run_rdf_quads(ctx, bins), small_families, lambda: run_prng(ctx, bins)], width=6)
 
     ctx.assumptions += [
         "TLC/SANY and the CommunityModules Json module are trusted",
